@@ -12,6 +12,76 @@ import (
 
 // ---- S1 index keys -------------------------------------------------------------
 
+// paramBind maps the parameters of a helper being visited to the caller's argument values, so that effects found in
+// an unexported helper (addToIndex(m.idxS, key, id, t)) are judged as if written at the call site.
+var paramBind = map[*ssa.Parameter]ssa.Value{}
+
+func resolveParam(v ssa.Value) ssa.Value {
+	for i := 0; i < 8; i++ {
+		// a variable captured by an immediately invoked or helper closure: the one value its cell was given
+		if u, ok := v.(*ssa.UnOp); ok && u.Op == token.MUL {
+			if al, ok := u.X.(*ssa.Alloc); ok {
+				if sv := singleStore(al); sv != nil {
+					v = sv
+					continue
+				}
+			}
+			if fv, ok := u.X.(*ssa.FreeVar); ok {
+				if sv := freeVarSingleValue(fv); sv != nil {
+					v = sv
+					continue
+				}
+			}
+		}
+		p, ok := v.(*ssa.Parameter)
+		if !ok {
+			return v
+		}
+		b, ok := paramBind[p]
+		if !ok {
+			return v
+		}
+		v = b
+	}
+	return v
+}
+
+// helperCallee returns the same-package module function a call statically resolves to (nil for builtins, other
+// packages, interface calls and functions without a body).
+func helperCallee(from *ssa.Function, cc *ssa.CallCommon) *ssa.Function {
+	f := cc.StaticCallee()
+	if f == nil || f.Pkg == nil || from.Pkg == nil || f.Pkg != from.Pkg || len(f.Blocks) == 0 || f == from {
+		return nil
+	}
+	return f
+}
+
+// intoHelper binds callee's parameters to the call's (resolved) arguments, runs visit and restores the bindings.
+func intoHelper(callee *ssa.Function, cc *ssa.CallCommon, visit func()) {
+	saved := map[*ssa.Parameter]ssa.Value{}
+	had := map[*ssa.Parameter]bool{}
+	for i, p := range callee.Params {
+		if i >= len(cc.Args) {
+			break
+		}
+		if old, ok := paramBind[p]; ok {
+			saved[p], had[p] = old, true
+		}
+		paramBind[p] = resolveParam(cc.Args[i])
+	}
+	visit()
+	for i, p := range callee.Params {
+		if i >= len(cc.Args) {
+			break
+		}
+		if had[p] {
+			paramBind[p] = saved[p]
+		} else {
+			delete(paramBind, p)
+		}
+	}
+}
+
 // keyAtoms turns an index key value into the sequence of (component, identity method) atoms it is built from.
 // S = subject node, P = predicate (P~ = PartialUUID), O = object, T = whole triple. "?" marks an unrecognised part.
 func (c *Ctx) keyAtoms(v ssa.Value, depth int) []string {
@@ -19,6 +89,10 @@ func (c *Ctx) keyAtoms(v ssa.Value, depth int) []string {
 		return []string{"?"}
 	}
 	switch x := v.(type) {
+	case *ssa.Parameter:
+		if b := resolveParam(x); b != ssa.Value(x) {
+			return c.keyAtoms(b, depth+1)
+		}
 	case *ssa.BinOp:
 		if x.Op == token.ADD {
 			return append(c.keyAtoms(x.X, depth+1), c.keyAtoms(x.Y, depth+1)...)
@@ -97,7 +171,29 @@ func componentKind(t types.Type) string {
 	return ""
 }
 
+// walkHelpers visits every instruction of fn and, through statically resolved calls, of the same-package helpers it
+// calls (parameters bound to the arguments), to the given depth. top is the instruction of fn the visit descends from.
+func walkHelpers(fn *ssa.Function, depth int, visit func(f *ssa.Function, in ssa.Instruction, top ssa.Instruction)) {
+	var rec func(f *ssa.Function, d int, top ssa.Instruction)
+	rec = func(f *ssa.Function, d int, top ssa.Instruction) {
+		allInstrs(f, func(in ssa.Instruction) {
+			t := top
+			if d == 0 {
+				t = in
+			}
+			visit(f, in, t)
+			if cc := callCommon(in); cc != nil && d < depth {
+				if callee := helperCallee(f, cc); callee != nil {
+					intoHelper(callee, cc, func() { rec(callee, d+1, t) })
+				}
+			}
+		})
+	}
+	rec(fn, 0, nil)
+}
+
 type idxEffect struct {
+	top   ssa.Instruction // the instruction of the analysed method the effect happens at or under
 	field *types.Var
 	outer string // signature of the bucket key ("" for the master index)
 	inner string // signature of the element key ("" when the effect is on a whole bucket)
@@ -106,6 +202,7 @@ type idxEffect struct {
 
 // fieldOfLoad returns the struct field a map value was loaded from (m.F), or nil.
 func fieldOfLoad(v ssa.Value) *types.Var {
+	v = resolveParam(v)
 	u, ok := v.(*ssa.UnOp)
 	if !ok || u.Op != token.MUL {
 		return nil
@@ -119,6 +216,7 @@ func fieldOfLoad(v ssa.Value) *types.Var {
 
 // bucketOf resolves a map value to (field, outer key value) when it is m.F[k] (plain or comma-ok), or (field, nil) for m.F.
 func bucketOf(v ssa.Value) (*types.Var, ssa.Value) {
+	v = resolveParam(v)
 	if f := fieldOfLoad(v); f != nil {
 		return f, nil
 	}
@@ -136,14 +234,18 @@ func bucketOf(v ssa.Value) (*types.Var, ssa.Value) {
 func sig(atoms []string) string { return "⟨" + strings.Join(atoms, ",") + "⟩" }
 
 func (c *Ctx) indexEffects(fn *ssa.Function, fields map[*types.Var]bool) (stores, deletes []idxEffect) {
-	allInstrs(fn, func(in ssa.Instruction) {
+	return c.indexEffectsDepth(fn, fields, 0)
+}
+
+func (c *Ctx) indexEffectsDepth(fn *ssa.Function, fields map[*types.Var]bool, depth int) (stores, deletes []idxEffect) {
+	walkHelpers(fn, 3, func(_ *ssa.Function, in ssa.Instruction, top ssa.Instruction) {
 		switch x := in.(type) {
 		case *ssa.MapUpdate:
 			f, outer := bucketOf(x.Map)
 			if f == nil || !fields[f] {
 				return
 			}
-			e := idxEffect{field: f, instr: in}
+			e := idxEffect{field: f, instr: in, top: top}
 			if outer == nil {
 				// m.F[k] = v : for the master index this is the element; for a bucket index it creates the bucket
 				if _, isMap := x.Value.Type().Underlying().(*types.Map); isMap {
@@ -164,7 +266,7 @@ func (c *Ctx) indexEffects(fn *ssa.Function, fields map[*types.Var]bool) (stores
 			if f == nil || !fields[f] {
 				return
 			}
-			e := idxEffect{field: f, instr: in}
+			e := idxEffect{field: f, instr: in, top: top}
 			if outer == nil {
 				mt := x.Call.Args[0].Type().Underlying().(*types.Map)
 				if _, isMap := mt.Elem().Underlying().(*types.Map); isMap {
@@ -311,24 +413,32 @@ func ruleS1(c *Ctx) {
 			pos   token.Pos
 		}
 		var reads []read
-		allInstrs(m, func(in ssa.Instruction) {
-			switch x := in.(type) {
-			case *ssa.Lookup:
-				if f := fieldOfLoad(x.X); f != nil && fields[f] {
-					reads = append(reads, read{f, sig(c.keyAtoms(x.Index, 0)), in.Pos()})
-				}
-			case *ssa.Call:
-				for _, arg := range x.Call.Args {
-					if f := fieldOfLoad(arg); f != nil && fields[f] {
+		var collect func(fn *ssa.Function, depth int)
+		collect = func(fn *ssa.Function, depth int) {
+			allInstrs(fn, func(in ssa.Instruction) {
+				switch x := in.(type) {
+				case *ssa.Lookup:
+					if f := fieldOfLoad(x.X); f != nil && fields[f] {
+						reads = append(reads, read{f, sig(c.keyAtoms(x.Index, 0)), in.Pos()})
+					}
+				case *ssa.Call:
+					if callee := helperCallee(fn, &x.Call); callee != nil && depth < 3 {
+						intoHelper(callee, &x.Call, func() { collect(callee, depth+1) })
+						return
+					}
+					for _, arg := range x.Call.Args {
+						if f := fieldOfLoad(arg); f != nil && fields[f] {
+							reads = append(reads, read{f, "", in.Pos()})
+						}
+					}
+				case *ssa.Range:
+					if f := fieldOfLoad(x.X); f != nil && fields[f] {
 						reads = append(reads, read{f, "", in.Pos()})
 					}
 				}
-			case *ssa.Range:
-				if f := fieldOfLoad(x.X); f != nil && fields[f] {
-					reads = append(reads, read{f, "", in.Pos()})
-				}
-			}
-		})
+			})
+		}
+		collect(m, 0)
 		if len(reads) == 0 {
 			continue
 		}
